@@ -20,7 +20,8 @@ import nitfparse
 import sargen
 
 sys.path.insert(0, os.path.join(VERIF, 'translate'))
-REQUIRED = ['offsets_length', 'offsets_chained', 'offsets_end', 'segmentation_tiles', 'decode_headers', 'segmentation_roundtrip',
+REQUIRED = ['maskOffsets_length', 'maskOffsets_recorded', 'maskOffsets_marks', 'masked_le_blocked', 'countPresent_le',
+            'offsets_length', 'offsets_chained', 'offsets_end', 'segmentation_tiles', 'decode_headers', 'segmentation_roundtrip',
             'gen_clevel_size', 'gen_clevel_dim', 'clevelRequired_ge_size']
 
 
@@ -84,7 +85,7 @@ def check_file(buf, expect, fails, label, case):
     return summ
 
 
-def general_case(rng, tmpdir, fails, stats, seen):
+def general_case(rng, tmpdir, fails, stats, seen, drv=None, jobs=None):
     """a file written through the general NITFWriter: one blocked (IC=NC) or block-masked (IC=NM) image plus text / DES / RES segments"""
     import io
     from sarpy.io.general.nitf import NITFWritingDetails, NITFWriter, NITFReader, ImageSubheaderManager, DESSubheaderManager, \
@@ -147,6 +148,13 @@ def general_case(rng, tmpdir, fails, stats, seen):
     summ = check_file(buf, [(rows, cols)], fails, 'NITF', case)
     if summ is None:
         return
+    if masked and drv is not None:
+        # model correspondence: mask table length, LI and the block mask records of the file vs Spec.Layout.masked*
+        im0 = summ['images'][0]
+        raw = buf[im0['data_offset']:im0['data_offset'] + 10 + 4 * blocks]
+        file_bmr = [int.from_bytes(raw[10 + 4 * k:14 + 4 * k], 'big') for k in range(blocks)]
+        impl = (int.from_bytes(raw[0:4], 'big'), im0['data_length'], int(details.image_managers[0].item_size), file_bmr)
+        jobs.append(('mask', case, impl, None, drv.ask(f'layout mask {block_bytes} ' + ''.join('0' if b in absent else '1' for b in range(blocks)))))
     # the extra segments carry exactly the bytes handed over, at their declared offsets
     want = {'text': [bytes(m.item_bytes) for m in texts], 'des': [bytes(m.item_bytes) for m in dess], 'res': [bytes(m.item_bytes) for m in ress]}
     for key, i, off, sub, dat in summ['layout']:
@@ -276,7 +284,7 @@ def run(tier):
             stats['files'] = stats.get('files', 0) + 1
             check_file(buf, shapes, fails, 'SIDD', case)
         for k in range(30 if tier == 'quick' else 300):
-            general_case(rng, tmpdir, fails, stats, seen)
+            general_case(rng, tmpdir, fails, stats, seen, drv, jobs)
     finally:
         shutil.rmtree(tmpdir, ignore_errors=True)
     try:
@@ -298,6 +306,11 @@ def run(tier):
                 impl_h = [(int(iloc[:5]), n) for n, iloc in impl]
                 if hdrs != impl_h:
                     disagreements.append({'case': case, 'what': 'segmentation / ILOC chain', 'model': hdr_s[:200], 'impl': str(impl_h)[:200]})
+            elif kind == 'mask':
+                tl, li, offs = ans[i].split()
+                model = (int(tl), int(li), int(li), [int(x) for x in offs.split(',')])
+                if model != tuple(impl):
+                    disagreements.append({'case': case, 'what': 'mask table length / LI / block mask records', 'model': str(model)[:200], 'impl': str(impl)[:200]})
             elif kind == 'clevel':
                 req, size_c, gen_c = ans[i].split()
                 if impl < int(req):
